@@ -119,8 +119,8 @@ Definition src_b64_encode (data : list N) : sres (list N) :=
     (fun r => out_bytes (snd r) "out").
 
 (* decode into a buffer of cap bytes: result flag and buffer contents, or the error (e.g. out of bounds) *)
-Definition src_b64_decode (cap : nat) (text : list N) : sres (bool * list N) :=
-  let m := Src_base64.globals ++ [("in", bytes_object text); ("out", mk_object U8 (Z.of_nat cap))] in
+Definition src_b64_decode (cap : nat) (fill : N) (text : list N) : sres (bool * list N) :=
+  let m := Src_base64.globals ++ [("in", bytes_object text); ("out", bytes_object (repeat fill cap))] in
   of_res (call b64_prog [] (List.length text + 100) "base64_to_hex/3" "" [VPtr "in" 0; VInt (zlen text); VPtr "out" 0] (init_state m))
     (fun r => match fst r, get_bytes (snd r) "out" with
               | Some (VInt z), Some o => SOk (negb (Z.eqb z 0), o)
